@@ -333,7 +333,9 @@ class MatchRun:
                 parties.append({'kind': 'search', 'tree': rng.randrange(len(programs)),
                                 'pat': rng.choice(vocab),
                                 'nested': rng.random() < 0.8, 'on': rng.choice(['enter', 'enter', 'leave']),
-                                'back': rng.random() < 0.2})
+                                'back': rng.random() < 0.2, 'scope': rng.random() < 0.15})
+                if parties[-1]['scope']:
+                    parties[-1]['on'] = 'enter'
             n_match = rng.choice([2, 4, 8])
             for i in range(n_match):
                 parties.append({'kind': 'match', 'tree': rng.randrange(len(programs)),
@@ -405,7 +407,7 @@ class MatchRun:
             pat = build_pattern(p['pat'])
             if p['kind'] == 'search':
                 out = []
-                for m in tree.search(pat, p['nested'], on=p['on'], back=p['back']):
+                for m in tree.search(pat, p['nested'], on=p['on'], back=p['back'], scope=p.get('scope', False)):
                     if len(out) == p.get('close_after'):
                         break
                     out.append(render(tree, m))
@@ -459,7 +461,7 @@ class MatchRun:
                 try:
                     if p['kind'] == 'search':
                         if i not in live:
-                            live[i] = trees[p['tree']].search(pat_of(p), p['nested'], on=p['on'], back=p['back'])
+                            live[i] = trees[p['tree']].search(pat_of(p), p['nested'], on=p['on'], back=p['back'], scope=p.get('scope', False))
                         try:
                             if len(got[i]) == p.get('close_after'):  # fault: the consumer cancels the search here
                                 live[i].close()
@@ -524,7 +526,7 @@ class MatchRun:
                         continue
                     tree = FST(programs[p['tree']], 'exec')
                     pat = build_pattern(p['pat'])
-                    want = [render(tree, n) for n in tree.walk(True, back=p['back']) if n.match(pat)]
+                    want = [render(tree, n) for n in tree.walk(True, back=p['back'], scope=p.get('scope', False)) if n.match(pat)]
                     have = [m[1] for m in refs[i][1]]
                     if want != have:
                         self.viol = {'kind': 'search_differs_from_filtered_walk', 'step': step,
